@@ -183,7 +183,9 @@ def dump_bin(bin_value, version=LATEST_VER):
 
 
 def dump_xstr(xstr_value, version=LATEST_VER):
-    return str(xstr_value)
+    # The payload is a ZINC string and needs the same escaping
+    return '%s(%s)' % (xstr_value.encoding,
+                       dump_str(xstr_value.data_to_string(), version=version))
 
 
 def dump_quantity(quantity, version=LATEST_VER):
